@@ -77,3 +77,8 @@ Definition f_floor (x : float) : option Z :=
   match f2q x with Some (p, q) => Some (p / q) | None => None end.
 Definition f_ceil (x : float) : option Z :=
   match f2q x with Some (p, q) => Some (- ((- p) / q)) | None => None end.
+
+(* int / int true division (y <> 0): correctly rounded quotient; 0 / negative is -0.0 as in CPython *)
+Definition zdiv_f (x y : Z) : float :=
+  if x =? 0 then (if y <? 0 then neg_zero else zero)
+  else q2f (if y <? 0 then - x else x) (Z.abs y).
